@@ -155,7 +155,8 @@ class C11Engine(Engine):
     def _run(self, tape, res, scratch):
         ev = res['events']
         viol = res['violations']
-        cfg = specgen.Cfg(max_ns=3, max_types=6, tag_annotations=True, alias_bias=tape.chance(50))
+        cfg = specgen.Cfg(max_ns=3, max_types=6, tag_annotations=True, alias_bias=tape.chance(50),
+                          nullable_alias_pct=25, alias_ref_pct=30, deep_inherit_pct=40)
         model = specgen.gen_model(tape, cfg)
         err_kind = None
         if tape.chance(10):
